@@ -822,6 +822,13 @@ def run(ctx):
       fl.insert(rng.randrange(len(fl)), rng.choice([True, 'ellipsis']))
     if fl:
       llists.append(fl)
+  # systematic: every ordered pair / triple of plain class and tag literals (overlapping classes in both orders:
+  # Variable > Param > MyParam), with and without a trailing catch-all
+  plain = [{'type': t} for t in ['Param', 'BatchStat', 'MyParam', 'Variable', 'Cache']] + [{'str': t} for t in TAGS]
+  for k in (2, 3):
+    for c in itertools.product(plain, repeat=k):
+      llists.append(list(c))
+      llists.append(list(c) + [rng.choice([True, 'ellipsis'])])
   check_lit_split(ctx, drv, llists, objs)
   check_nnx_graph_split(ctx, rng, 40 if not thorough else 400)
 
